@@ -251,6 +251,12 @@ func runC13(p *eng.Prog, r *eng.Report, tier string) {
 		return strings.HasPrefix(f.Short, "stanza.") || strings.HasPrefix(f.Short, "stream.") || strings.HasPrefix(f.Short, "internal/saslerr.")
 	}, 5)
 	jidCore(c, "C13.26")
+	inCore := func(f *eng.Fn) bool {
+		return strings.HasPrefix(f.Short, "stanza.") || strings.HasPrefix(f.Short, "stream.") || strings.HasPrefix(f.Short, "internal/saslerr.")
+	}
+		decodeTargetsAreFresh(c, "C13.30", inCore, 4)
+	encoderLoopsDoNotFilter(c, "C13.31", inCore, 2)
+	decodersKeepEveryElement(c, "C13.32", inCore, 4)
 	decodedStanzaNotRewritten(c, "C13.25", []string{"stanza.UnmarshalIQError"}, 1)
 	c13EveryTextWritten(c, "C13.24")
 	attrGetNotUsed(c, "C13.23")
